@@ -414,6 +414,19 @@ pub fn run_leg(args: &Args, rep: &mut Report, prop: &str) {
         let sseed = rng.next_u64();
         let mut r = rng.fork(i);
         let mut case = gen_bounded(&mut r, sseed);
+        if prop == "C10" && i % 2 == 0 {
+            // the clause needs packets that carry retransmittable frames to be LOST in every space: besides the random
+            // schedule, the first 1-3 datagrams of one direction that contain a Handshake (or Initial / 1-RTT) packet vanish
+            let kind = *r.pick(&['h', 'h', 'i', 's']);
+            let n = r.range(1, 3) as u32;
+            if r.bool() {
+                case.spec.c2s.drop_first_of_kind = Some((kind, n));
+            } else {
+                case.spec.s2c.drop_first_of_kind = Some((kind, n));
+            }
+            case.label = format!("{} + first {n} '{kind}' datagrams dropped", case.label);
+            rep.count("l2_scenarios_with_targeted_packet_kind_loss");
+        }
         if prop == "C07" && i % 3 == 1 {
             // packets that carry nothing but a DATAGRAM frame (frames the sent journal does not track) must consume
             // their packet number too: one short echo, then datagrams from both sides on an otherwise idle connection
